@@ -107,6 +107,27 @@ func BuildASC(objectType, freqIdx, explicitHz, channelConfig int, frameLength960
 	return w.Bytes()
 }
 
+// BuildASCExplicitSBR writes an AudioSpecificConfig with explicit hierarchical
+// SBR (object type 5) or SBR+PS (object type 29) signalling (1.6.2.1, 1.6.5):
+// leading type 5/29, core frequency index, channel configuration, extension
+// frequency index, the underlying object type, then its GASpecificConfig.
+func BuildASCExplicitSBR(ps bool, coreIdx, channelConfig, extIdx, baseObjectType int, frameLength960 bool) []byte {
+	var w BitWriter
+	lead := 5
+	if ps {
+		lead = 29
+	}
+	w.PutBits(5, uint64(lead))
+	w.PutBits(4, uint64(coreIdx))
+	w.PutBits(4, uint64(channelConfig))
+	w.PutBits(4, uint64(extIdx))
+	w.PutBits(5, uint64(baseObjectType))
+	w.PutFlag(frameLength960)
+	w.PutFlag(false)
+	w.PutFlag(false)
+	return w.Bytes()
+}
+
 // ADTS is the fixed + variable header of an ADTS frame (ISO/IEC 14496-3
 // 1.A.2.2.1, 1.A.2.2.2; ISO/IEC 13818-7 6.2).
 type ADTS struct {
